@@ -112,11 +112,13 @@ PROPS = {
                     "whose static type can never be boolean/null, the Expr::Index arm exactly the receivers that can never be an array and indexes that can never be a number.  "
                     "CALLS: `name(args)` on a built-in name is rejected with FunctionCallArity iff the count differs from the built-in's arity (and "
                     "`command` with TypeMismatch iff its argument is statically a non-string), on a user function in scope iff the count differs "
-                    "from its parameter count, and with UndeclaredIdentifier iff the name is neither (call_rule: each error in its own category)."),
+                    "from its parameter count, and with UndeclaredIdentifier iff the name is neither (call_rule: each error in its own category).  "
+                    "DECLARED TYPES (unit resolver_assign): after `make x get e`, first declaration or re-declaration in the same scope, the static "
+                    "type later uses of x are checked against is e's type (dynamic if e has none)."),
         "not_covered": ("undeclared-variable, duplicate-function/parameter and reserved-name rules (loops over HashSet / closures), function "
                         "lookup itself (lookup_func is a parameter of call_rule; its innermost-scope rule is a Kani obligation under C04), which methods exist for which "
                         "receiver type and their argument count, "
-                        "type tracking across re-declarations, and the recursion of check_expr over sub-expressions (cut at the arm boundary)."),
+                        "plain re-assignment (`x get e` does not re-type x), and the recursion of check_expr over sub-expressions (cut at the arm boundary)."),
         "trusted_base": [KANI_TRUST, OS_TRUST, "predeclare_block_functions used through a registration-only contract stub in the check_function_body harness (its HashSet code is outside CBMC's reach)"],
     },
     "C14": {
@@ -208,11 +210,14 @@ PROPS = {
                     "expr_local / stmt_local / string_segment_local with exactly the recorded binding (None for unrecorded keys) for every "
                     "recording order, and Runtime::lookup_local_env / lookup_local_mut return the innermost scope's latest slot with the "
                     "queried id for every assignment of ids to a 3x2 scope stack; Resolver::lookup_var_info / lookup_func resolve a name to the innermost "
-                    "scope's latest declaration / the innermost defining block."),
+                    "scope's latest declaration / the innermost defining block.  DECLARATION (Verus, unit resolver_assign: the Stmt::Assign arm of "
+                    "Resolver::check_stmt over a ghost record of the current scope): the initializer of `make x get e` is resolved and typed BEFORE "
+                    "x is (re)declared, so `make x get x add 1` reads the outer x; afterwards the entry a later use of x sees is the last one and "
+                    "carries e's type; no other name's entry changes."),
         "not_covered": ("that resolver ids and the dynamic scope search compose to lexical scoping under recursion (needs an invariant "
                         "relating the activation stack to the scope tree across eval_function_call), argument evaluation order, "
                         "per-block predeclaration, assign/define_bound_local (Value's recursive drop glue explodes in CBMC), function tables (user_call_callee, function_by_body)."),
-        "trusted_base": [KANI_TRUST, OS_TRUST],
+        "trusted_base": [KANI_TRUST, VERUS_TRUST, OS_TRUST],
     },
     "C06": {
         "level": "other",
